@@ -335,40 +335,41 @@ theorem hostMatch_empty {a : Str} (hm : isHostnameAllowed [] a = true) :
     simp at hs
 
 /-- **C06 / absolute branch, browser view (fragment).**  Assume the whitelist entries have
-    lower-case host parts other than the degenerate `.` / `*.`.  If `s` (starting with
+    lower-case host parts.  (Before the fix "never treat a redirect URL without a host as being on
+    an allowed domain" this theorem needed the extra hypothesis that no entry is the degenerate `.` /
+    `*.` — the excluded point was a genuine defect: such an entry matched the empty host of
+    `https:///evil.com`.)  If `s` (starting with
     `http://`/`https://`, host part in the fragment) is accepted by `IsValidRedirect` with the
     hand model of `url.Parse` as oracle, then a WHATWG browser given `s` either fails, or
     reinterprets a numeric-looking host as IPv4 (possible only if the accepted hostname ends in
     a number), or navigates to a host and port that are themselves allowed by the whitelist. -/
 theorem absRedirect_browser (allowed : List Str) (s : Str)
     (hlow : ∀ d ∈ allowed, lower (splitHostPort d).1 = (splitHostPort d).1)
-    (hdeg : ∀ d ∈ allowed, (splitHostPort d).1 ≠ ['.'] ∧ (splitHostPort d).1 ≠ ['*', '.'])
     (hfrag : hostInFragment s = true)
     (h p : Str) (hgo : goParseHostPort s = some (h, p))
     (hallowed : isEndpointAllowed h p allowed = true) :
     browserHostPort s = .failure ∨
     (browserHostPort s = .ipv4 ∧ endsInNumber (lower h) = true) ∨
     (browserHostPort s = .domain (lower h) p ∧ isEndpointAllowed (lower h) p allowed = true) := by
-  obtain ⟨d, hd, hdne, hm, hport⟩ := (absRedirect_allowed h p allowed).mp hallowed
-  have hne : h ≠ [] := by
-    rintro rfl
-    rcases hostMatch_empty hm with h0 | h0 | h0
-    · exact hdne h0
-    · exact (hdeg d hd).1 h0
-    · exact (hdeg d hd).2 h0
+  obtain ⟨hne, d, hd, hdne, hm, hport⟩ := (absRedirect_allowed h p allowed).mp hallowed
   rcases authority_agree s h p hfrag hgo hne with h1 | h1 | h1
   · exact Or.inl h1
   · exact Or.inr (Or.inl h1)
   · refine Or.inr (Or.inr ⟨h1, ?_⟩)
+    have hlne : lower h ≠ [] := by
+      intro h0
+      apply hne
+      cases h with
+      | nil => rfl
+      | cons c cs => simp [lower] at h0
     exact (absRedirect_allowed (lower h) p allowed).mpr
-      ⟨d, hd, hdne, hostMatch_lower h _ (hlow d hd) hm, hport⟩
+      ⟨hlne, d, hd, hdne, hostMatch_lower h _ (hlow d hd) hm, hport⟩
 
 -- an instance of all hypotheses of `absRedirect_browser`
 example :
     let allowed := [".example.com:*".toList]
     let s := "https://user@a.example.com:8443/p".toList
     (∀ d ∈ allowed, lower (splitHostPort d).1 = (splitHostPort d).1) ∧
-    (∀ d ∈ allowed, (splitHostPort d).1 ≠ ['.'] ∧ (splitHostPort d).1 ≠ ['*', '.']) ∧
     hostInFragment s = true ∧
     goParseHostPort s = some ("a.example.com".toList, "8443".toList) ∧
     isEndpointAllowed "a.example.com".toList "8443".toList allowed = true ∧
